@@ -78,9 +78,9 @@ where
             loop {
                 let request = recv_request.recv().await?;
 
-                frame
+                let written = frame
                     .write_async::<MessageRequest<S>, _>(Pin::new(&mut stdin), &request)
-                    .await?;
+                    .await;
 
                 let interrupt = async {
                     ctrlc.next().await;
@@ -94,7 +94,15 @@ where
                 };
 
                 let exec_time = S::timeout(&config);
-                let pending = timeout(exec_time, interrupt.race(next_frame));
+                let pending = async {
+                    match written {
+                        Ok(()) => timeout(exec_time, interrupt.race(next_frame)).await,
+                        // The child is already gone. This request gets the
+                        // error and a new child is started, like when
+                        // reading the reply fails.
+                        Err(err) => Ok(Err(err)),
+                    }
+                };
 
                 let mut break_out = false;
                 let response = match pending.await {
